@@ -21,9 +21,12 @@ def run(e):
             return [f"{e}: patch does not apply (tree moved on)"]
         env = dict(os.environ, CHMPY_VERIF_REPO=wt)
         prop = e.split("-")[0]
+        meta = json.load(open(f"{ROOT}/harmless/{e}/meta.json"))
         for p in [prop] + EXTRA.get(prop, []):
             c = subprocess.run(f"./check {p} --tier quick", shell=True, cwd=ROOT, capture_output=True, text=True, env=env)
-            out.append(f"{e} {p}: exit {c.returncode} {'ok' if c.returncode == 0 else 'FALSE-ALARM'}")
+            expected = meta.get("expected_exit", 0) if p == prop else 0       # a few entries are recorded as 'left undecided' (exit 2, no VIOLATION line): see meta.json
+            ok = c.returncode == 0 or (c.returncode == expected and "VIOLATION" not in c.stdout)
+            out.append(f"{e} {p}: exit {c.returncode} {'ok' if ok else 'FALSE-ALARM'}" + ("" if c.returncode == 0 else " (recorded as undecided)" if ok else ""))
             if c.returncode:
                 out += ["     " + l[:200] for l in c.stdout.splitlines() if l.startswith(("VIOLATION", "UNDECIDED", "CHECKER"))][:6]
     finally:
